@@ -22,8 +22,11 @@ import (
 )
 
 func init() {
-	runners["SYNC"] = func(tier string, seed uint64, out string) error { return runSync("SYNC", false, tier, seed, out) }
-	runners["SYNCF7"] = func(tier string, seed uint64, out string) error { return runSync("SYNCF7", true, tier, seed, out) }
+	// the same runs, judged by the property's own rule (SyncCheck.v)
+	runners["SYNC"] = func(tier string, seed uint64, out string) error { return runSync("SYNC", "sync_run", false, tier, seed, out) }
+	runners["SYNC08"] = func(tier string, seed uint64, out string) error { return runSync("SYNC08", "sync_run_c08", false, tier, seed, out) }
+	runners["SYNC10"] = func(tier string, seed uint64, out string) error { return runSync("SYNC10", "sync_run_c10", false, tier, seed, out) }
+	runners["SYNCF7"] = func(tier string, seed uint64, out string) error { return runSync("SYNCF7", "sync_run_c11", true, tier, seed, out) }
 }
 
 func gid() int {
@@ -862,12 +865,12 @@ func dialsSeen(rec *syncRec) int {
 	return n
 }
 
-func runSync(name string, withF7 bool, tier string, seed uint64, out string) error {
+func runSync(name, runFn string, withF7 bool, tier string, seed uint64, out string) error {
 	n := 80
 	if tier == "thorough" {
 		n = 1500
 	}
-	cs := newCaseSet(name, "SyncCheck", "synccase", "sync_run")
+	cs := newCaseSet(name, "SyncCheck", "synccase", runFn)
 	stats := map[string]int{}
 	r := newRng(seed)
 	{
